@@ -19,6 +19,7 @@ func init() {
 			"the 72 phenological names and the pentad labels are read from the library's exported lists (order as shipped)",
 		},
 		Gen: c13Gen, Run: c13Run,
+		BlockKind: "year", BlockQuick: [2]int{8, 8}, BlockThorough: [2]int{0, 25},
 		Exhaustive: func(tier string) bool { return tier == "thorough" },
 		MinEvals:   map[string]int64{"quick": 400000, "thorough": 20000000},
 		Chunks:     128,
@@ -77,6 +78,9 @@ func c13Run(w *W, c Case) {
 		}
 		key := ymd(cy, cm, cd)
 		w.Cur("C13 day " + key)
+		if j%7 == 0 {
+			distract(ref.Stamp{Y: cy, M: cm, D: cd, H: 12}, j/7)
+		}
 		l := calendar.NewSolar(cy, cm, cd, (j*7)%24, 30, 0).GetLunar()
 		// New Year's Eve of the previous day is decided now
 		if prevL != nil {
